@@ -282,9 +282,11 @@ def run(tier, seed, jobs, deadline, report):
     full = {i for i, e in enumerate(E) if not e["slow"] or T}
     core = {i for i, e in enumerate(E) if e["core"]}
     all_core = set(core)
-    quick_core = {i for i, e in enumerate(E) if e["name"] in (
-        "parse(en, cache limit 1)", "parse(fr, cache limit 1)", "parse(de, cache limit 2)", "persistent S1 parser",
-        "search(fr, S1)", "parse(num, en+fr region PF)", "parse(invalid fr date, default settings)")}
+    # extension alphabet of the quick tier: the events that can *observe* left-over state (long-lived parser instances,
+    # cache-limit calls, calls whose settings inherit from the module default)
+    quick_core = {i for i, e in enumerate(E) if e["name"].startswith("persistent") or e["name"] in (
+        "parse(en, cache limit 1)", "parse(fr, cache limit 1)", "parse(de, cache limit 2)", "search(fr, S1)",
+        "parse(fr, no locale order)", "parse(tl numeric)")}
     if T:
         res = _explore(full, 3, core, 4, jobs, deadline, seed, extend_from=all_core)
     else:
